@@ -115,6 +115,8 @@ func (e *Eval) evalLoop(fr *frame, h *ssa.BasicBlock, body map[*ssa.BasicBlock]b
 				st[o] = BigLayout(Layout{{W: K(INF), Sym: xName(o)}})
 			case okArr:
 				// stores are recorded; content otherwise kept
+			case okSB:
+				st[o] = SBC{Parts: []SBPart{{X: xName(o)}}}
 			default:
 				st[o] = topContent(o, "modified inside a loop")
 			}
@@ -296,6 +298,8 @@ func (e *Eval) evalLoop(fr *frame, h *ssa.BasicBlock, body map[*ssa.BasicBlock]b
 			info.Recs = append(info.Recs, fmt.Sprintf("obj%d: %s", o.ID, rec))
 		case okArr:
 			// handled below (needs the closed forms)
+		case okSB:
+			// handled below (needs the closed forms)
 		default:
 			exitSt[o] = topContent(o, "modified inside a loop")
 		}
@@ -379,7 +383,51 @@ func (e *Eval) evalLoop(fr *frame, h *ssa.BasicBlock, body map[*ssa.BasicBlock]b
 			exitSt[o] = lp.x0[o]
 			continue
 		}
+		lp.refs = e.refs
 		exitSt[o] = e.materialise(ac, lp)
+	}
+	// builders: X' = X ++ parts(t)  ⇒  X_T = X_0 ++ parts(0) ++ … ++ parts(T-1)
+	for _, o := range objs {
+		if o.Kind != okSB {
+			continue
+		}
+		x0, _ := lp.x0[o].(SBC)
+		if !haveBack || T == 0 {
+			exitSt[o] = x0
+			continue
+		}
+		bc, _ := backSt[o].(SBC)
+		if bc.Top != "" || x0.Top != "" || len(bc.Parts) == 0 || bc.Parts[0].X != xName(o) || T < 0 || T > 4096 {
+			exitSt[o] = SBC{Top: "builder written in a loop without a recognised recurrence"}
+			continue
+		}
+		lp.refs = e.refs
+		out := SBC{Parts: append([]SBPart{}, x0.Parts...)}
+		good := true
+		for t := int64(0); t < T && good; t++ { // one obligation per appended piece
+			for _, p := range bc.Parts[1:] {
+				if p.X != "" {
+					good = false
+					break
+				}
+				if p.Cond != nil {
+					holds, ok := condAt(*p.Cond, t)
+					if !ok {
+						good = false
+						break
+					}
+					if holds != p.Pol {
+						continue
+					}
+				}
+				out.Parts = append(out.Parts, SBPart{V: lp.resolveAV(p.V, t)})
+			}
+		}
+		if !good {
+			exitSt[o] = SBC{Top: "builder parts written under a condition that cannot be resolved per iteration"}
+			continue
+		}
+		exitSt[o] = out
 	}
 	// objects created inside the loop do not survive it
 	for o := range exitSt {
@@ -630,6 +678,15 @@ func (e *Eval) tripCount(fr *frame, h *ssa.BasicBlock, body map[*ssa.BasicBlock]
 // resolveAt substitutes the closed forms of loop-carried symbols at the head of iteration t.
 func (lp *loopCtx) resolveAt(l Layout, t int64) (Layout, bool) {
 	cur := l.AtT(t)
+	for name, repl := range lp.refs {
+		if cur.Mentions(name) {
+			var ok bool
+			cur, ok = cur.SubstSym(name, false, 0, repl)
+			if !ok {
+				return nil, false
+			}
+		}
+	}
 	for name, cf := range lp.closed {
 		if !cur.Mentions(name) {
 			continue
@@ -653,6 +710,11 @@ func (lp *loopCtx) resolveAt(l Layout, t int64) (Layout, bool) {
 	}
 	if termMentionsX(cur) {
 		return nil, false
+	}
+	for _, f := range cur {
+		if len(f.Sym) > 1 && f.Sym[0] == 'R' && f.Sym[1] >= '0' && f.Sym[1] <= '9' {
+			return nil, false
+		}
 	}
 	return cur.Norm(), true
 }
@@ -741,4 +803,25 @@ func (e *Eval) materialise(ac *ArrC, lp *loopCtx) Content {
 	n.Elems = elems
 	n.Stores = nil
 	return &n
+}
+
+
+// condAt evaluates a branch condition that depends only on the loop counter at iteration t.
+func condAt(b BoolV, t int64) (bool, bool) {
+	if b.Known {
+		return b.Val, true
+	}
+	if b.C == nil || b.C.Kind != "intcmp" {
+		return false, false
+	}
+	x, ok1 := b.C.A.(IntV)
+	y, ok2 := b.C.B.(IntV)
+	if !ok1 || !ok2 || x.Kind != ikLin || y.Kind != ikLin {
+		return false, false
+	}
+	r := cmpHolds(x.L.At(t), b.C.Op, y.L.At(t))
+	if b.Neg {
+		r = !r
+	}
+	return r, true
 }
